@@ -49,6 +49,9 @@ transformations:
     path: @VALUES@
     filter: "^adm_"
     include: [users]
+  - id: uvars
+    type: value_placeholders
+    include: [backend_index]
   - id: utmpl
     type: add_condition
     template: true
@@ -81,6 +84,10 @@ def doc(kind: str) -> dict:
         d = rule_doc("ok1", 7)
         d["detection"]["sel"] = {"fieldA|expand": "%users%"}
         return d
+    if kind == "optph":  # a placeholder named like the pipeline variable of a backend OPTION this backend was not given
+        d = rule_doc("ok1", 7)
+        d["detection"]["sel"] = {"fieldA|expand": "%backend_index%"}
+        return d
     if kind == "neqok":
         d = rule_doc("ok1", 7)
         d["detection"]["condition"] = "not sel"
@@ -96,7 +103,7 @@ def doc(kind: str) -> dict:
     return rule_doc(kind, 7)
 
 
-PROBES = ("ok1", "okstate", "neqok", "ok2", "direct", "phfile")
+PROBES = ("ok1", "okstate", "neqok", "ok2", "direct", "phfile", "optph")
 _CLS = None
 
 
@@ -153,6 +160,10 @@ def drive_case(case):
     for op in case["hist"]:
         if op[0] == "new":
             bk[op[1]] = cls(shared if op[2] else user_pipeline())
+        elif op[0] == "opt":  # another backend of the class, WITH an option and WITHOUT user pipeline, converts a rule
+            other = cls(None, index="other_index")
+            r = _res(lambda: other.convert_rule(SigmaRule.from_dict(doc(op[1])), "state"))
+            log.append(r["exc"] or "ok")
         elif op[0] == "init":
             bk[op[1]].init_processing_pipeline("state")
         elif op[0] == "rule":
@@ -173,6 +184,7 @@ def drive_case(case):
         "fresh": case["_fresh"][kind],
         "windows": kind == "okstate",
         "direct": kind == "direct",
+        "optph": kind == "optph",
     }
 
 
